@@ -49,6 +49,9 @@ REV=[
  ("reject a message that flattens itself",["C18","C16"],"R-TERM/T2"),
  ("print json_name when it differs",["C05"],"R-COVER"),
  ("linker reports an import cycle",["C07"],"R-TERM/T-rec"),
+ ("emit the rules of map item types",["C12"],"R-FLOW/items"),
+ ("print a type name for fields that refer",["C05"],"R-FLOW/refname"),
+ ("emit array item-count rules",["C04","C12"],"R-SYM/S7"),
 ]
 n=0
 for sub,props,expect in REV:
@@ -56,7 +59,9 @@ for sub,props,expect in REV:
     d=sh(f"git -C /repo diff {c} {c}~1").stdout
     chk=subprocess.run("git -C /repo apply --check -",shell=True,input=d,capture_output=True,text=True)
     if chk.returncode!=0:
-        print("skip (does not apply to HEAD):",c,sub); continue
+        print("skip (does not apply to HEAD):",c,sub)
+        for f in glob.glob(f"{ROOT}/mutants/*/rev-{c}.diff"): os.remove(f)
+        continue
     for p in props:
         os.makedirs(f"{ROOT}/mutants/{p}",exist_ok=True)
         open(f"{ROOT}/mutants/{p}/rev-{c}.diff","w").write(f"# expect: {expect}\n# reverse of /repo fix: commit {c} ({sub})\n"+d)
@@ -67,7 +72,9 @@ for d in sorted(glob.glob(f"{ROOT}/seeded/C*")):
     patch=open(d+"/patch.diff").read()
     chk=subprocess.run("git -C /repo apply --check -",shell=True,input=patch,capture_output=True,text=True)
     if chk.returncode!=0:
-        print("skip seed (does not apply):",sid); continue
+        print("skip seed (does not apply):",sid)
+        for f in glob.glob(f"{ROOT}/mutants/*/seed-{sid}.diff"): os.remove(f)
+        continue
     os.makedirs(f"{ROOT}/mutants/{p}",exist_ok=True)
     open(f"{ROOT}/mutants/{p}/seed-{sid}.diff","w").write(f"# expect: VIOLATION\n# seeded change {sid} (sub-agent, confirmed)\n"+patch)
     n+=1
